@@ -154,14 +154,22 @@ Proof. exact handedness_row. Qed.
 Print Assumptions C17_handedness.
 
 (* orientation (setter and constructor; check_format_input_orientation is pinned by the translator): None and every
-   scipy Rotation are stored -- None as one unit quaternion, a single rotation as one, a stack of n as n -- and every
-   other value raises the library's input error *)
+   scipy Rotation with at least one rotation are stored -- None as one unit quaternion, a single rotation as one, a
+   stack of n >= 1 as n -- and an EMPTY stack as well as every other value raises the library's input error *)
 Theorem C17_orientation_assign : forall a r inp, In a ["orientation"; "orientation@init"] ->
-  find_setter "BaseGeo" a = Some r ->
+  find_setter "BaseGeo" a = Some r -> wf_oinput inp ->
   assign_orient r inp = if odoc_accepts inp
                         then OStored (match inp with ORot false n => n | _ => 1 end) else ORejected.
 Proof. exact orientation_assign_lemma. Qed.
 Print Assumptions C17_orientation_assign.
+
+(* the guard against an empty Rotation exists in the code (flag TRANSLATED from /repo; before 5f63352 the setter
+   stored an empty path and the constructor raised a numpy ValueError) *)
+Theorem C17_orientation_rejects_empty : orientation_rejects_empty = true /\
+  exists r, find_setter "BaseGeo" "orientation" = Some r /\ assign_orient r (ORot false 0) = ORejected /\
+            assign_orient r (ORot false 3) = OStored 3 /\ assign_orient r (ORot true 1) = OStored 1.
+Proof. split; [exact orientation_rejects_empty_lemma|]. eexists. split; [vm_compute; reflexivity|]. repeat split. Qed.
+Print Assumptions C17_orientation_rejects_empty.
 
 (* CustomSource.field_func (validate_field_func translated): for every value whose probe calls do not raise, accepted
    iff None or a callable(field, observers, ...) whose B and H probes return None or an ndarray of the probe's
